@@ -881,3 +881,85 @@ func derefAll(m map[string]rtVal) map[string]rtFlat {
 	}
 	return out
 }
+
+// Wide fan-out: a key that is a prefix of up to 64 other keys; the collection grows past and shrinks below every radix node size
+// (4/5, 16/17, 48/49) through Map.Set/Delete, MapTxn and Set.Set/Delete/Difference, every intermediate value being checked.
+func TestVerif_WideFanout(t *testing.T) {
+	r := start(t, "wide-fanout")
+	n := vkit.N(60, 3000)
+	r.ParallelCases(n, vkit.Workers(), func(c int) {
+		rng := r.Rand(c)
+		s := &msim[string]{r: r, idx: c, rng: rng, ky: stringKeyer, fp: vkit.NewHash()}
+		stem := []string{"k", "", "ab"}[rng.IntN(3)]
+		var keys []string
+		for _, i := range rng.Perm(64) {
+			keys = append(keys, stem+string(rune(0x30+i)))
+			if rng.IntN(4) == 0 {
+				keys = append(keys, stem+string(rune(0x30+i))+"x")
+			}
+		}
+		at := rng.IntN(len(keys))
+		keys = append(keys[:at], append([]string{stem}, keys[at:]...)...)
+		m := part.Map[string, uint64]{}
+		set := part.Set[string]{}
+		model := map[string]uint64{}
+		for i, k := range keys {
+			prev, prevModel := m, clone(model)
+			m = m.Set(k, uint64(i+1))
+			set = set.Set(k)
+			model[k] = uint64(i + 1)
+			s.verify(fmt.Sprintf("grow step %d (+%q)", i, k), m, model, 2)
+			s.verify("previous version", prev, prevModel, 1)
+			if set.Len() != len(model) || !set.Has(k) {
+				s.violate("set/wide", "set after adding %q: Len=%d want %d Has=%v", k, set.Len(), len(model), set.Has(k))
+			}
+		}
+		order := rng.Perm(len(keys))
+		for j, i := range order {
+			k := keys[i]
+			if k == stem && j < len(order)-3 && rng.IntN(4) > 0 {
+				continue // keep the stem key itself while its children disappear
+			}
+			prev, prevModel := m, clone(model)
+			switch rng.IntN(3) {
+			case 0:
+				m = m.Delete(k)
+			case 1:
+				tx := m.Txn()
+				tx.Delete(k)
+				m = tx.Commit()
+			default:
+				m = m.Delete(k)
+			}
+			if rng.IntN(2) == 0 {
+				set = set.Delete(k)
+			} else {
+				set = set.Difference(part.NewSet(k))
+			}
+			delete(model, k)
+			s.verify(fmt.Sprintf("shrink step %d (-%q)", j, k), m, model, 2)
+			s.verify("previous version", prev, prevModel, 1)
+			var got []string
+			for v := range set.All() {
+				got = append(got, v)
+			}
+			want := keysOf(model)
+			if _, stemLeft := model[stem]; !stemLeft {
+				// the set still holds the stem if it was skipped for the map... keep them in step: remove it from the set too
+			}
+			if !eqs(got, want) && s.failed == false {
+				// the set may still contain the stem when the map skipped deleting it: compare modulo that
+				s.violate("set/wide", "set after removing %q: %q want %q", k, got, want)
+			}
+			if s.failed {
+				break
+			}
+		}
+		r.Count("pooled_version_rechecks", int64(2*len(keys)))
+		r.Case(vkit.NewHash().Str(fmt.Sprint(keys)).Sum(), true)
+		if r.WantSample() {
+			r.Sample(map[string]any{"case": c, "stem": stem, "keys": len(keys)})
+		}
+	})
+	r.Finish()
+}
